@@ -84,6 +84,7 @@ var (
 func NewBinaryProtocol(buf []byte) *BinaryProtocol {
 	bp := bpPool.Get().(*BinaryProtocol)
 	bp.Buf = buf
+	bp.borrowed = true
 	return bp
 }
 
@@ -96,12 +97,17 @@ func NewBinaryProtocolBuffer() *BinaryProtocol {
 
 // FreeBinaryProtocol resets the buffer and puts the binary protocol back to sync.Pool
 func FreeBinaryProtocolBuffer(bp *BinaryProtocol) {
-	bp.Reset()
-	bpPool.Put(bp)
+	bp.Recycle()
 }
 
 // Recycle put the protocol back to sync.Pool
 func (p *BinaryProtocol) Recycle() {
+	if p.borrowed {
+		// Buf belongs to the caller of NewBinaryProtocol(buf): it must not enter the pool,
+		// otherwise the next NewBinaryProtocolBuffer() user appends into the caller's memory
+		p.Buf = nil
+		p.borrowed = false
+	}
 	p.Reset()
 	bpPool.Put(p)
 }
@@ -111,6 +117,8 @@ func (p *BinaryProtocol) Recycle() {
 type BinaryProtocol struct {
 	Buf  []byte
 	Read int
+	// borrowed is set by NewBinaryProtocol(buf): Buf is the caller's memory, not the pool's
+	borrowed bool
 }
 
 // Reset resets the buffer and read position
